@@ -62,10 +62,13 @@ def make_cert(ip, dns, uri, peer_ip=PEER_IP):
     if _KEY is None:
         _KEY = ec.generate_private_key(ec.SECP256R1())
     sans = []
-    if ip in ('match', 'both'):
+    if ip in ('match', 'both', 'both6'):
         sans.append(x509.IPAddress(ipaddress.ip_address(peer_ip)))
     if ip in ('mismatch', 'both'):
         sans.append(x509.IPAddress(ipaddress.ip_address(OTHER_IP)))
+    if ip in ('mismatch6', 'both6'):
+        # an address of the other family than the connection's: an identifier all the same, and not this peer's address
+        sans.append(x509.IPAddress(ipaddress.ip_address('2001:db8::bad')))
     if dns in ('match', 'both'):
         sans.append(x509.DNSName(PEER_DNS))
     if dns in ('mismatch', 'both'):
@@ -114,6 +117,10 @@ def all_rows():
             for req_host, req_node in itertools.product((False, True), (False, True)):
                 rows.append(dict(local_can=local_can, peer_can=peer_can, require=require, hs_ok=hs_ok, naming=naming,
                                  ip='absent', dns='absent', uri='absent', req_host=req_host, req_node=req_node, cert='none'))
+        # iPAddress identifiers of the other address family
+        for ip6, uri, req_host, req_node in itertools.product(('mismatch6', 'both6'), ('match', 'absent'), (False, True), (False, True)):
+            rows.append(dict(local_can=local_can, peer_can=peer_can, require=require, hs_ok=hs_ok, naming=naming,
+                             ip=ip6, dns='absent', uri=uri, req_host=req_host, req_node=req_node))
         # a peer that announces a zero-length node ID: any URI identifier in its certificate then contradicts the announcement
         for uri, req_node in itertools.product(SAN4, (False, True)):
             for announce in sorted(ANNOUNCE):
@@ -146,7 +153,7 @@ def decide(row):
             return 'absent'
         if not has_ref:
             return 'unverifiable'
-        return 'match' if state in ('match', 'both') else 'mismatch'
+        return 'match' if state in ('match', 'both', 'both6') else 'mismatch'
 
     ip_v = verdict(row['ip'])
     dns_v = verdict(row['dns'], has_dns_ref)
